@@ -21,11 +21,17 @@ import dgram_common as dc  # noqa: E402
 PROP = "C11"
 RULE = ("event scripts: mostly-valid life cycles (query->reply, query->error->retry->reply, duplicate/late replies, "
         "expiry at t-1/t/t+1 around the 30 s horizon, interleaved sources and destinations, UDP_CLOSE racing with data, "
-        "ssnet.MAX_CHANNEL 1..8 forcing exhaustion and wrap-around) x payloads (empty, commas, NULs, 4096/4097 bytes) "
+        "ssnet.MAX_CHANNEL 1..8 forcing exhaustion and wrap-around; TCP connections accepted AND FINISHED (real MuxWrapper noread + "
+        "nowrite: the Mux keeps their identifiers as None-valued keys) between the queries / datagrams, so that after the cursor has "
+        "wrapped only identifiers of finished TCP flows are free - every captured datagram must then still be forwarded) x payloads (empty, commas, NULs, 4096/4097 bytes) "
         "plus a malformed stream (bad headers, frames for foreign channels, re-opened channels); composed "
         "client+server runs: DNS-only and DNS/UDP/TCP mixed on random schedules with MAX_CHANNEL in {65535, 8, 3, 2, 1}; a script is "
         "non-trivial when it delivers a datagram or runs more than two steps; distinct by content hash of the script")
 TRUSTED_BASE = [
+    "the client's channel table is compared in identifier order, without the None-valued keys finished TCP flows leave behind (the code "
+    "never iterates over mux.channels and reads it only through .get(): None and absent are the same to it - Model/Dgram.v tcp_end)",
+    "the tproxy listener answers recvmsg() like Linux put_cmsg (control message cut to the buffer offered, MSG_CTRUNC; compared with the "
+    "running kernel by ./check C05)",
     "modelled, not verified: CPython dict insertion order, bytes %-formatting of ints, bytes.split(b',', 2), struct.pack range checks",
     "the fake listener / sender / resolver sockets, pipe files, select() and clock of harness/props/dgram_common.py stand for the kernel",
     "OverflowError of socket.sendto for ports > 65535 is emulated by the fake socket",
